@@ -345,9 +345,26 @@ func runCase(rq *request) M {
 	str0, _ := safeString(e)
 
 	vars := map[string]interface{}{}
+	exts := map[string]jsonata.Extension{}
 	for _, b := range rq.Binds {
 		bp := b.([]interface{})
+		if bm, ok := bp[1].(map[string]interface{}); ok && bm["t"] == "fn" {
+			// an extension function described by the specification (C20)
+			ext, err := makeExtension(bm)
+			if err != nil {
+				ev["out"] = M{"o": "bad", "why": err.Error()}
+				return ev
+			}
+			exts[bp[0].(string)] = ext
+			continue
+		}
 		vars[bp[0].(string)] = unproject(bp[1])
+	}
+	if len(exts) > 0 {
+		if err := e.RegisterExts(exts); err != nil {
+			ev["out"] = M{"o": "bad", "why": "RegisterExts: " + err.Error()}
+			return ev
+		}
 	}
 	if len(vars) > 0 {
 		if err := e.RegisterVars(vars); err != nil {
@@ -405,6 +422,10 @@ func runCase(rq *request) M {
 	ba := make([]interface{}, 0, len(rq.Binds))
 	for _, b := range rq.Binds {
 		bp := b.([]interface{})
+		if bm, ok := bp[1].(map[string]interface{}); ok && bm["t"] == "fn" {
+			ba = append(ba, b)
+			continue
+		}
 		pv, perr := project(vars[bp[0].(string)])
 		if perr != nil {
 			pv = M{"t": "bad", "gotype": perr.Error()}
@@ -452,6 +473,9 @@ func runCase(rq *request) M {
 		if e2, err2, p2 := safeCompile(src); err2 == nil && p2 == nil {
 			if len(vars) > 0 {
 				e2.RegisterVars(vars)
+			}
+			if len(exts) > 0 {
+				e2.RegisterExts(exts)
 			}
 			safeEval(e2, warmDoc())
 			out3 = safeEval(e2, input)
